@@ -83,6 +83,10 @@ class SynImpl:
         else:
             self.syn = make_synapse(self.cf, self.P, self.shape, self.batch, bool(hdr.get("inplace", False)))
         self.full = (self.batch,) + self.shape
+        # f64: the synapse lives in double precision (Module.double()): selectors and inputs follow
+        self.fdt = torch.float64 if hdr.get("f64") else torch.float32
+        if hdr.get("f64"):
+            self.syn = self.syn.double()
 
     def apply(self, o: dict) -> dict:
         try:
@@ -91,15 +95,15 @@ class SynImpl:
             return {"t": "err", "e": type(e).__name__}
 
     def _sel(self, sel):
-        return torch.tensor([z * self.P.tick for z in sel], dtype=torch.float32).reshape(self.full)
+        return torch.tensor([z * self.P.tick for z in sel], dtype=self.fdt).reshape(self.full)
 
     def _apply(self, o):
         s, a = self.syn, o["a"]
         if a == "step":
-            spk = torch.tensor([x["s"] for x in o["v"]], dtype=torch.bool if self.boolin else torch.float32)
+            spk = torch.tensor([x["s"] for x in o["v"]], dtype=torch.bool if self.boolin else self.fdt)
             spk = spk.reshape(self.full)
             if self.cf["sk"] == "dplus":
-                inj = torch.tensor([x["j"] * self.P.ju for x in o["v"]], dtype=torch.float32).reshape(self.full)
+                inj = torch.tensor([x["j"] * self.P.ju for x in o["v"]], dtype=self.fdt).reshape(self.full)
                 r = s(spk, inj)
             else:
                 r = s(spk)
